@@ -68,7 +68,7 @@ def main():
       ],
       "checks": checks,
       "not_applicable": na,
-      "notes": "All checks rebuild the harness against /repo's working tree (path dependencies). Exit 2 = machinery failure, never a verdict.",
+      "notes": "All checks rebuild the harness against /repo's working tree (path dependencies). Exit 2 = machinery failure, never a verdict. Quick tiers take 0.5-35 s each after the build (16 cores); thorough tiers 1 s - 30 min, C05 about 70 min (its 2.6 h configuration: VCHECK_C05_DEEP=1).",
     }
     json.dump(m, open(os.path.join(ROOT,"MANIFEST.json"),"w"), indent=1)
     print("claimed", len(checks), "n/a", len(na))
